@@ -1057,6 +1057,9 @@ func (f *frame) applyContract(c *Contract, rel string, callee *ssa.Function, arg
 	}
 	// frame
 	f.applyMods(c.Modifies, envPre, st, reach, rel)
+	if c.CallsBack != "" {
+		f.applyCallbackFrame(c, rel, args, pre, st, reach, pos)
+	}
 
 	if st.epoch != pre.epoch {
 		// a `modifies *` callee cannot reach this function's non-escaping locals
@@ -1961,4 +1964,45 @@ func (f *frame) recordValue(e *env, r Record) (v *sym) {
 		}
 	}()
 	return e.rvalue(r.E)
+}
+
+// applyCallbackFrame: a callee declared `callsback P` calls the function value passed as P zero or more times.  When
+// that value is a closure (or function) of this program with a contract, whatever the closure may modify may be
+// modified by this call; nothing more is known afterwards (no postcondition of a single call survives repetition).
+// A callback without a contract makes the call modify everything.
+func (f *frame) applyCallbackFrame(c *Contract, rel string, args []*sym, pre, st *state, reach string, pos token.Pos) {
+	vc := f.vc
+	idx := -1
+	for i, p := range c.Params {
+		if p == c.CallsBack {
+			idx = i
+		}
+	}
+	if idx < 0 || idx >= len(args) {
+		vc.oblige("bind", "callsback_"+mangle(rel), "true", "false", pos, "callsback "+c.CallsBack+": no such parameter of "+rel, nil).Trivial = false
+		return
+	}
+	cb := args[idx]
+	if cb.clos == nil || cb.clos.fn == nil {
+		vc.w.note("%s: callback handed to %s is not a known closure (modifies *)", vc.fnName, rel)
+		vc.havocAll(st, reach)
+		return
+	}
+	cc := vc.w.contractOf(cb.clos.fn.String())
+	if cc == nil {
+		vc.w.note("%s: callback %s handed to %s has no contract (modifies *)", vc.fnName, cb.clos.fn.String(), rel)
+		vc.havocAll(st, reach)
+		return
+	}
+	var cargs []*sym
+	for _, p := range cb.clos.fn.Params {
+		cargs = append(cargs, f.freshOf(p.Type(), "cbarg_"+p.Name(), nil, reach))
+	}
+	envCb := f.calleeEnv(cc, cb.clos.fn, cargs, cb.clos.bindings, pre, pre)
+	f.applyMods(cc.Modifies, envCb, st, reach, rel+"/callback")
+	for _, r := range cc.Records {
+		if k, so, ok := vc.ghostKey(r.Ghost); ok {
+			st.h[k] = vc.fresh("g_"+r.Ghost, so)
+		}
+	}
 }
